@@ -195,6 +195,10 @@ func (s *StorageClient) Get(key string) (*mc.Item, error) {
 func (s *StorageClient) GetMulti(keys []string) (map[string]*mc.Item, error) {
 	ret := make(map[string]*mc.Item)
 	for _, key := range keys {
+		if _, ok := ret[key]; ok {
+			// same key requested twice: the first buffer would be dropped without being released
+			continue
+		}
 		item, _ := s.Get(key)
 		if item != nil {
 			ret[key] = item
